@@ -308,7 +308,7 @@ var c12Types = []byte{ref.Connect, ref.ConnAck, ref.Publish, ref.PubAck, ref.Pub
 
 func runC12(c *sim.Ctx) *sim.Violation {
 	t := c.T
-	g := &gen.G{T: t, Thorough: c.Thorough}
+	g := gen.NewG(t, c.Thorough, 2) // up to two boundary-size arguments (16383..65535 bytes) per history
 	typ := c12Types[t.Int(len(c12Types))]
 	name := ref.TypeNames[typ]
 	n := 1 + t.Int(24)
